@@ -10,23 +10,18 @@ namespace IceProofs.C01Live
 open IceModel.AgentCore IceModel.Sys2 IceProofs.Sys2Run IceProofs.C01 IceProofs.Agent
 
 section
-variable {nat blocked : List (Nat × Nat)} {SLA SLB SR : Nat → Prop} {liteA liteB : Bool} {T0 H : Nat} {c : Bool}
+variable {nat blocked : List (Nat × Nat)} {SLA SLB SR : Nat → Prop} {liteA liteB : Bool} {T0 H J : Nat} {c : Bool}
 
-/-- what the controlling agent needs for its first valid pair: it has one (or even a selected pair), or a pair
-waiting / in progress under its request budget on a `Link` -/
-def Start (c : Bool) (s : Sys) : Prop := HasSucc s c ∨ Sel s c ∨ BudgetPair c s
-
-/-- a delivery (no tick of `c`, forced or not) keeps `Start` -/
-theorem Start.deliver {s : Sys} (h : FInv nat blocked SLA SLB SR liteA liteB T0 H c s) {k : Nat} (keep : Bool) {hd : Dgram}
-    (hk : s.inflight[k]? = some hd) (g : Start c s) : Start c (s.deliver k keep).1 := by
-  obtain ⟨h', eff, _, bk⟩ := h.deliver keep hk
+/-- a quiet delivery (no tick of `c`, forced or not) keeps `Start` -/
+theorem Start.deliver {s s' : Sys} {hd : Dgram} {t : List Dgram} (eff : Effect T0 s s' hd t)
+    (bk : BK (s.agent c) (s'.agent c)) (g : Start c s) : Start c s' := by
   rcases g with g | g | ⟨p, hp, hst, hb, l, r, hl, hr, hlink⟩
   · exact Or.inl (g.keep eff)
   · exact Or.inr (Or.inl (g.keep eff))
   · -- the pair at its position
     obtain ⟨i, hi⟩ := List.getElem?_of_mem hp
     obtain ⟨p2, hp2, bp⟩ := bk i p hi
-    have hp2m : p2 ∈ ((s.deliver k keep).1.agent c).checklist := List.mem_of_getElem? hp2
+    have hp2m : p2 ∈ (s'.agent c).checklist := List.mem_of_getElem? hp2
     rcases bp.keep with ⟨e1, e2⟩ | hsucc
     · right; right
       have hcfg := (eff.ids c).cfg
@@ -48,7 +43,7 @@ theorem Start.deliver {s : Sys} (h : FInv nat blocked SLA SLB SR liteA liteB T0 
             by rw [kp.r]; exact hr', ?_⟩
           rw [ckey_addr kl, ckey_addr kr.key]
           exact eff.net.link hlink
-        · have ec : (s.deliver k keep).1.agent c = s.agent c := by rw [bool_ne_eq_not hcy]; exact ho
+        · have ec : s'.agent c = s.agent c := by rw [bool_ne_eq_not hcy]; exact ho
           rw [ec] at hp2
           rw [hi] at hp2
           cases hp2
@@ -57,9 +52,9 @@ theorem Start.deliver {s : Sys} (h : FInv nat blocked SLA SLB SR liteA liteB T0 
     · exact Or.inl ⟨p2, hp2m, hsucc⟩
 
 /-- a clock advance before the tick of `c` is due keeps `Start` -/
-theorem Start.early {s : Sys} (h : FInv nat blocked SLA SLB SR liteA liteB T0 H c s) {T t : Nat} (hle : s.now ≤ T) (hH : T ≤ H)
+theorem Start.early {s : Sys} (h : FInv nat blocked SLA SLB SR liteA liteB T0 H J c s) {T t : Nat} (hle : s.now ≤ T) (hH : T ≤ H)
     (ht : (s.agent c).nextTick = some t) (hT : T < t) (g : Start c s) : Start c (s.advance T).1 := by
-  obtain ⟨h', eff, early, _⟩ := h.advance hle hH ht (Nat.le_of_lt hT)
+  obtain ⟨h', eff, early, _⟩ := h.advance hle hH ht (Nat.le_trans (Nat.le_of_lt hT) (Nat.le_add_right _ _))
   have ec := early hT
   rcases g with g | g | ⟨p, hp, hst, hb, l, r, hl, hr, hlink⟩
   · exact Or.inl (g.adv eff)
@@ -67,180 +62,162 @@ theorem Start.early {s : Sys} (h : FInv nat blocked SLA SLB SR liteA liteB T0 H 
   · exact Or.inr (Or.inr ⟨p, by rw [ec]; exact hp, hst, by rw [ec]; exact hb, l, r, by rw [ec]; exact hl, by rw [ec]; exact hr,
       eff.net.link hlink⟩)
 
+/-- **one event of the suffix, seen from the controlling agent**: quiet (its timer and `Start` are kept), or a tick
+(the timer tick, or the forced tick after a peer-reflexive discovery) not later than the timer was due -/
+theorem ev_class {s : Sys} {e : SysEv} {t : Nat} (h : FInv nat blocked SLA SLB SR liteA liteB T0 H J c s) (he : sufOK c H J s e)
+    (ht : (s.agent c).nextTick = some t) :
+    (((Sys.run s e).agent c).nextTick = some t ∧ (Start c s → Start c (Sys.run s e))) ∨
+    (∃ ts, CTick c ts s (Sys.run s e) ∧ ts ≤ t ∧ ts ≤ (Sys.run s e).now ∧ (Sys.run s e).now ≤ ts + J) := by
+  have hnt : s.now ≤ t := by
+    obtain ⟨t', ht', l1, _⟩ := h.tick
+    rw [ht] at ht'; cases ht'; exact l1
+  rcases ev_view he with e' | ⟨k, keep, hd, hk, e'⟩ | ⟨T, t1, hev, hle, hH, ht1, hT, e'⟩
+  · rw [e']; exact Or.inl ⟨ht, fun g => g⟩
+  · rw [e']
+    obtain ⟨_, eff, hq | hc⟩ := h.deliver keep hk
+    · exact Or.inl ⟨by rw [hq.1]; exact ht, Start.deliver eff hq.2⟩
+    · exact Or.inr ⟨s.now, hc, hnt, by rw [eff.now]; exact Nat.le_refl _, by rw [eff.now]; exact Nat.le_add_right _ _⟩
+  · rw [ht] at ht1; cases ht1
+    rw [e']
+    obtain ⟨_, eff, early, tk, _⟩ := h.advance hle hH ht hT
+    rcases Nat.lt_or_ge T t with hlt | hge
+    · exact Or.inl ⟨by rw [early hlt]; exact ht, Start.early h hle hH ht hlt⟩
+    · exact Or.inr ⟨t, tk hge, Nat.le_refl _, by rw [eff.now]; exact hge, by rw [eff.now]; exact hT⟩
+
+/-- the split of a suffix at one event -/
+theorem split_ev {s : Sys} {e1 e2 : List SysEv} {e : SysEv} (h : FInv nat blocked SLA SLB SR liteA liteB T0 H J c s)
+    (hs : SufOK c H J s (e1 ++ e :: e2)) :
+    FInv nat blocked SLA SLB SR liteA liteB T0 H J c (Sys.runs s e1) ∧
+    FInv nat blocked SLA SLB SR liteA liteB T0 H J c (Sys.run (Sys.runs s e1) e) ∧
+    SufOK c H J (Sys.run (Sys.runs s e1) e) e2 ∧
+    Sys.runs s (e1 ++ e :: e2) = Sys.runs (Sys.run (Sys.runs s e1) e) e2 := by
+  have h1 := h.runs hs.head
+  have h2 := hs.tail
+  exact ⟨h1, h1.run h2.1, h2.2, by rw [Sys.runs_append]; rfl⟩
+
 /-- **the tick of the controlling agent cannot be skipped**: if the clock of the suffix ends beyond `nextTick c`,
-the suffix contains the `advance` to exactly that time; up to it the timer and `Start` are unchanged. -/
-theorem next_tick {s : Sys} {es : List SysEv} {t : Nat} (h : FInv nat blocked SLA SLB SR liteA liteB T0 H c s)
-    (hs : SufOK c H s es) (ht : (s.agent c).nextTick = some t) (hend : t < (Sys.runs s es).now) :
-    ∃ e1 e2, es = e1 ++ SysEv.advance t :: e2 ∧ ((Sys.runs s e1).agent c).nextTick = some t ∧
-      (Start c s → Start c (Sys.runs s e1)) := by
+the suffix contains a tick of `c` (timer or forced) not later than that; up to it `Start` is kept. -/
+theorem next_contact {s : Sys} {es : List SysEv} {t : Nat} (h : FInv nat blocked SLA SLB SR liteA liteB T0 H J c s)
+    (hs : SufOK c H J s es) (ht : (s.agent c).nextTick = some t) (hend : t < (Sys.runs s es).now) :
+    ∃ e1 e e2 ts, es = e1 ++ e :: e2 ∧ (Start c s → Start c (Sys.runs s e1)) ∧
+      CTick c ts (Sys.runs s e1) (Sys.run (Sys.runs s e1) e) ∧ ts ≤ t ∧ (Sys.run (Sys.runs s e1) e).now ≤ ts + J := by
   induction es generalizing s with
   | nil =>
     obtain ⟨t', ht', h1, _⟩ := h.tick
     rw [ht] at ht'; cases ht'
     exact absurd hend (by show ¬ t < s.now; omega)
   | cons e es ih =>
-    have step : ∀ (htk : ((Sys.run s e).agent c).nextTick = some t) (hst : Start c s → Start c (Sys.run s e)),
-        ∃ e1 e2, e :: es = e1 ++ SysEv.advance t :: e2 ∧ ((Sys.runs s e1).agent c).nextTick = some t ∧
-          (Start c s → Start c (Sys.runs s e1)) := by
-      intro htk hst
-      obtain ⟨e1, e2, q1, q2, q3⟩ := ih (h.run hs.1) hs.2 htk hend
-      exact ⟨e :: e1, e2, by rw [q1]; rfl, q2, fun g => q3 (hst g)⟩
-    rcases ev_view hs.1 with e' | ⟨k, keep, hd, hk, e'⟩ | ⟨T, t1, hev, hle, hH, ht1, hT, e'⟩
-    · exact step (by rw [e']; exact ht) (by rw [e']; exact fun g => g)
-    · obtain ⟨_, _, hq, _⟩ := h.deliver keep hk
-      exact step (by rw [e', hq]; exact ht) (by rw [e']; exact Start.deliver h keep hk)
-    · rw [ht] at ht1; cases ht1
-      rcases Nat.lt_or_ge T t with hlt | hge
-      · obtain ⟨_, _, early, _⟩ := h.advance hle hH ht hT
-        exact step (by rw [e', early hlt]; exact ht) (by rw [e']; exact Start.early h hle hH ht hlt)
-      · have : T = t := by omega
-        subst this
-        exact ⟨[], es, by rw [hev]; rfl, ht, fun g => g⟩
-
-/-- the split of a suffix at a clock advance -/
-theorem split_adv {s : Sys} {e1 e2 : List SysEv} {t : Nat} (h : FInv nat blocked SLA SLB SR liteA liteB T0 H c s)
-    (hs : SufOK c H s (e1 ++ SysEv.advance t :: e2)) :
-    FInv nat blocked SLA SLB SR liteA liteB T0 H c (Sys.runs s e1) ∧ sufOK c H (Sys.runs s e1) (.advance t) ∧
-    SufOK c H ((Sys.runs s e1).advance t).1 e2 ∧
-    Sys.runs s (e1 ++ SysEv.advance t :: e2) = Sys.runs ((Sys.runs s e1).advance t).1 e2 := by
-  have h1 := h.runs hs.head
-  have h2 := hs.tail
-  exact ⟨h1, h2.1, h2.2, by rw [Sys.runs_append]; rfl⟩
+    rcases ev_class h hs.1 ht with ⟨htk, hst⟩ | ⟨ts, hc, hn, _, hj⟩
+    · obtain ⟨e1, e', e2, ts, q1, q2, q3, q4, q5⟩ := ih (h.run hs.1) hs.2 htk hend
+      exact ⟨e :: e1, e', e2, ts, by rw [q1]; rfl, fun g => q2 (hst g), q3, q4, q5⟩
+    · exact ⟨[], e, es, ts, rfl, fun g => g, hc, hn, hj⟩
 
 variable {L : Nat}
 
-theorem FairL.after_adv {s : Sys} {e1 e2 : List SysEv} {t : Nat} (hf : FairL L s (e1 ++ SysEv.advance t :: e2)) :
-    FairL L ((Sys.runs s e1).advance t).1 e2 := by
-  have e : e1 ++ SysEv.advance t :: e2 = (e1 ++ [SysEv.advance t]) ++ e2 := by simp
-  rw [e] at hf
+theorem FairL.after_ev {s : Sys} {e1 e2 : List SysEv} {e : SysEv} (hf : FairL L s (e1 ++ e :: e2)) :
+    FairL L (Sys.run (Sys.runs s e1) e) e2 := by
+  have e' : e1 ++ e :: e2 = (e1 ++ [e]) ++ e2 := by simp
+  rw [e'] at hf
   have := hf.tail
   rw [Sys.runs_append] at this
   exact this
 
 /-- **the first valid pair**: within `2 L` after the controlling agent's next tick it has a Succeeded (or selected)
 pair -/
-theorem first_valid {s : Sys} {es : List SysEv} {t : Nat} (h : FInv nat blocked SLA SLB SR liteA liteB T0 H c s)
-    (hs : SufOK c H s es) (hf : FairL L s es) (hL : 2 * L < maxBindingRequestTimeout) (hst : Start c s)
-    (ht : (s.agent c).nextTick = some t) (hend : t + 2 * L < (Sys.runs s es).now) :
-    ∃ e1 e2, es = e1 ++ e2 ∧ (HasSucc (Sys.runs s e1) c ∨ Sel (Sys.runs s e1) c) ∧ (Sys.runs s e1).now ≤ t + 2 * L := by
-  obtain ⟨e1, e2, q1, q2, q3⟩ := next_tick h hs ht (by omega)
+theorem first_valid {s : Sys} {es : List SysEv} {t : Nat} (h : FInv nat blocked SLA SLB SR liteA liteB T0 H J c s)
+    (hs : SufOK c H J s es) (hf : FairL L s es) (hL : J + 2 * L < maxBindingRequestTimeout) (hst : Start c s)
+    (ht : (s.agent c).nextTick = some t) (hend : t + J + 2 * L < (Sys.runs s es).now) :
+    ∃ e1 e2, es = e1 ++ e2 ∧ (HasSucc (Sys.runs s e1) c ∨ Sel (Sys.runs s e1) c) ∧ (Sys.runs s e1).now ≤ t + J + 2 * L := by
+  obtain ⟨e1, e, e2, ts, q1, q2, q3, q4, q5⟩ := next_contact h hs ht (by omega)
   subst q1
-  obtain ⟨h1, hadv, hs2, hrun⟩ := split_adv h hs
-  have hnow1 : (Sys.runs s e1).now ≤ t := by
-    obtain ⟨t', ht', l1, _⟩ := h1.tick
-    rw [q2] at ht'; cases ht'; exact l1
-  by_cases hsel : Sel (Sys.runs s e1) c
-  · exact ⟨e1, _, rfl, Or.inr hsel, by omega⟩
-  by_cases hsucc : HasSucc (Sys.runs s e1) c
-  · exact ⟨e1, _, rfl, Or.inl hsucc, by omega⟩
-  rcases q3 hst with g | g | ⟨p0, hp0, hstate, hbud, l, r, hl, hr, hlink⟩
-  · exact absurd g hsucc
-  · exact absurd g hsel
-  · obtain ⟨hle, hH, _⟩ := hadv
-    obtain ⟨h2, eff, _, _⟩ := h1.advance hle hH q2 (Nat.le_refl _)
-    obtain ⟨tid, hch⟩ := sys_tick_ping h1.ok hH eff q2 hsel hsucc hp0 hstate hbud hl hr hlink
-    have hf2 : FairL L ((Sys.runs s e1).advance t).1 e2 := hf.after_adv
-    rw [hrun] at hend
-    have hnow2 : ((Sys.runs s e1).advance t).1.now = t := eff.now
-    obtain ⟨f1, f2, r1, r2, r3⟩ := ch1_completes h2 hs2 hf2 hch (by rw [hnow2]; exact hend) (by rw [hnow2]; omega)
+  obtain ⟨h1, h2, hs2, hrun⟩ := split_ev h hs
+  have hsplit : e1 ++ e :: e2 = (e1 ++ [e]) ++ e2 := by simp
+  have hr2 : Sys.runs s (e1 ++ [e]) = Sys.run (Sys.runs s e1) e := by rw [Sys.runs_append]; rfl
+  rcases q3.ping (q2 hst) with g | g | ⟨tid, la, ra, hch⟩
+  · exact ⟨e1 ++ [e], e2, hsplit, Or.inl (by rw [hr2]; exact g), by rw [hr2]; omega⟩
+  · exact ⟨e1 ++ [e], e2, hsplit, Or.inr (by rw [hr2]; exact g), by rw [hr2]; omega⟩
+  · rw [hrun] at hend
+    obtain ⟨f1, f2, r1, r2, r3⟩ := ch1_completes h2 hs2 hf.after_ev hch (by omega) (by omega)
     subst r1
-    refine ⟨e1 ++ SysEv.advance t :: f1, f2, by simp, Or.inl ?_, ?_⟩
+    refine ⟨e1 ++ e :: f1, f2, by simp, Or.inl ?_, ?_⟩
     · rw [Sys.runs_append]; exact r2.1
     · rw [Sys.runs_append]
-      rw [hnow2] at r3
-      exact r3
+      show (Sys.runs (Sys.run (Sys.runs s e1) e) f1).now ≤ _
+      omega
 
-/-- **the tick at which the controlling agent nominates**: the first tick not earlier than `N` -/
-theorem nom_tick (N : Nat) : ∀ (n : Nat) {s : Sys} {es : List SysEv} {t : Nat},
-    FInv nat blocked SLA SLB SR liteA liteB T0 H c s → SufOK c H s es → (s.agent c).nextTick = some t → N - t ≤ n →
-    max s.now N + 2000000000 < (Sys.runs s es).now →
-    ∃ e1 e2 t', es = e1 ++ SysEv.advance t' :: e2 ∧ ((Sys.runs s e1).agent c).nextTick = some t' ∧ N ≤ t' ∧
-      t' ≤ max s.now N + 2000000000 := by
-  intro n
-  induction n with
-  | zero =>
-    intro s es t h hs ht hn hend
-    obtain ⟨t', ht', l1, l2⟩ := h.tick
+/-- **the tick at which the controlling agent nominates**: a tick (timer or forced) at a time not earlier than `N` -/
+theorem contact_after (N : Nat) {s : Sys} {es : List SysEv} {t : Nat} (h : FInv nat blocked SLA SLB SR liteA liteB T0 H J c s)
+    (hs : SufOK c H J s es) (ht : (s.agent c).nextTick = some t) (hend : max t (N + J + 2000000000) < (Sys.runs s es).now) :
+    ∃ e1 e e2 ts, es = e1 ++ e :: e2 ∧ CTick c ts (Sys.runs s e1) (Sys.run (Sys.runs s e1) e) ∧
+      N ≤ ts ∧ ts ≤ max t (N + J + 2000000000) ∧ (Sys.run (Sys.runs s e1) e).now ≤ ts + J := by
+  induction es generalizing s t with
+  | nil =>
+    obtain ⟨t', ht', h1, _⟩ := h.tick
     rw [ht] at ht'; cases ht'
-    have hm := Nat.le_max_left s.now N
-    obtain ⟨e1, e2, q1, q2, _⟩ := next_tick h hs ht (by omega)
-    exact ⟨e1, e2, t, q1, q2, by omega, by omega⟩
-  | succ n ih =>
-    intro s es t h hs ht hn hend
-    obtain ⟨t', ht', l1, l2⟩ := h.tick
-    rw [ht] at ht'; cases ht'
-    have hm := Nat.le_max_left s.now N
-    have hm2 := Nat.le_max_right s.now N
-    obtain ⟨e1, e2, q1, q2, _⟩ := next_tick h hs ht (by omega)
-    by_cases hNt : N ≤ t
-    · exact ⟨e1, e2, t, q1, q2, hNt, by omega⟩
-    · subst q1
-      obtain ⟨h1, hadv, hs2, hrun⟩ := split_adv h hs
-      obtain ⟨hle, hH, _⟩ := hadv
-      obtain ⟨h2, eff, _, tk⟩ := h1.advance hle hH q2 (Nat.le_refl _)
-      obtain ⟨t2, ht2, l3⟩ := tk rfl
-      have hpos := minInterval_pos ((Sys.runs s e1).agent c).cfg
-      have hnow2 : ((Sys.runs s e1).advance t).1.now = t := eff.now
-      rw [hrun] at hend
-      have hmax : max ((Sys.runs s e1).advance t).1.now N = N := by
-        rw [hnow2]; exact Nat.max_eq_right (by omega)
-      obtain ⟨f1, f2, t3, r1, r2, r3, r4⟩ := ih h2 hs2 ht2 (by omega) (by rw [hmax]; omega)
-      subst r1
-      refine ⟨e1 ++ SysEv.advance t :: f1, f2, t3, by simp, ?_, r3, ?_⟩
-      · rw [Sys.runs_append]; exact r2
-      · rw [hmax] at r4; omega
+    have : s.now ≤ max t (N + J + 2000000000) := Nat.le_trans h1 (Nat.le_max_left _ _)
+    exact absurd hend (by show ¬ _ < s.now; omega)
+  | cons e es ih =>
+    have h' := h.run hs.1
+    rcases ev_class h hs.1 ht with ⟨htk, _⟩ | ⟨ts, hc, hn, _, hj⟩
+    · obtain ⟨e1, e', e2, ts, q1, q2, q3, q4, q5⟩ := ih h' hs.2 htk hend
+      exact ⟨e :: e1, e', e2, ts, by rw [q1]; rfl, q2, q3, q4, q5⟩
+    · by_cases hN : N ≤ ts
+      · exact ⟨[], e, es, ts, rfl, hc, hN, Nat.le_trans hn (Nat.le_max_left _ _), hj⟩
+      · obtain ⟨t', ht', l1, l2⟩ := h'.tick
+        have hm : max t' (N + J + 2000000000) = N + J + 2000000000 := Nat.max_eq_right (by omega)
+        have hle : N + J + 2000000000 ≤ max t (N + J + 2000000000) := Nat.le_max_right _ _
+        obtain ⟨e1, e', e2, ts', q1, q2, q3, q4, q5⟩ := ih h' hs.2 ht' (by rw [hm]; exact Nat.lt_of_le_of_lt hle hend)
+        rw [hm] at q4
+        exact ⟨e :: e1, e', e2, ts', by rw [q1]; rfl, q2, q3, Nat.le_trans q4 hle, q5⟩
 
 /-- **the controlling agent selects**: from a state in which it has a valid pair, within `2 s + 2 L` after the later
 of now and the nomination time -/
-theorem ctl_selected {s : Sys} {es : List SysEv} (h : FInv nat blocked SLA SLB SR liteA liteB T0 H c s)
-    (hs : SufOK c H s es) (hf : FairL L s es) (hL : 2 * L < maxBindingRequestTimeout)
+theorem ctl_selected {s : Sys} {es : List SysEv} (h : FInv nat blocked SLA SLB SR liteA liteB T0 H J c s)
+    (hs : SufOK c H J s es) (hf : FairL L s es) (hL : J + 2 * L < maxBindingRequestTimeout)
     (hst : HasSucc s c ∨ Sel s c)
-    (hend : max s.now (nomTime c s) + 2000000000 + 2 * L < (Sys.runs s es).now) :
+    (hend : max s.now (nomTime c s) + 2000000000 + 2 * J + 2 * L < (Sys.runs s es).now) :
     ∃ e1 e2, es = e1 ++ e2 ∧ Sel (Sys.runs s e1) c ∧
-      (Sys.runs s e1).now ≤ max s.now (nomTime c s) + 2000000000 + 2 * L := by
+      (Sys.runs s e1).now ≤ max s.now (nomTime c s) + 2000000000 + 2 * J + 2 * L := by
   by_cases hsel0 : Sel s c
   · exact ⟨[], es, rfl, hsel0, by have := Nat.le_max_left s.now (nomTime c s); show s.now ≤ _; omega⟩
   have hsucc0 : HasSucc s c := hst.elim id (fun g => absurd g hsel0)
-  obtain ⟨t0, ht0, _, _⟩ := h.tick
-  obtain ⟨e1, e2, t, q1, q2, q3, q4⟩ := nom_tick (nomTime c s) (nomTime c s - t0) h hs ht0 (Nat.le_refl _) (by omega)
+  obtain ⟨t0, ht0, l1, l2⟩ := h.tick
+  have hmx : max t0 (nomTime c s + J + 2000000000) ≤ max s.now (nomTime c s) + 2000000000 + J := by
+    have := Nat.le_max_left s.now (nomTime c s)
+    have := Nat.le_max_right s.now (nomTime c s)
+    exact Nat.max_le.mpr ⟨by omega, by omega⟩
+  obtain ⟨e1, e, e2, ts, q1, q2, q3, q4, q5⟩ := contact_after (nomTime c s) h hs ht0 (by omega)
   subst q1
-  obtain ⟨h1, hadv, hs2, hrun⟩ := split_adv h hs
-  have hnow1 : (Sys.runs s e1).now ≤ t := by
-    obtain ⟨t', ht', l1, _⟩ := h1.tick
-    rw [q2] at ht'; cases ht'; exact l1
+  obtain ⟨h1, h2, hs2, hrun⟩ := split_ev h hs
+  have hsplit : e1 ++ e :: e2 = (e1 ++ [e]) ++ e2 := by simp
+  have hr2 : Sys.runs s (e1 ++ [e]) = Sys.run (Sys.runs s e1) e := by rw [Sys.runs_append]; rfl
   have hsucc1 : HasSucc (Sys.runs s e1) c := hasSucc_runs h hs.head hsucc0
-  by_cases hsel : Sel (Sys.runs s e1) c
-  · exact ⟨e1, _, rfl, hsel, by omega⟩
-  obtain ⟨hle, hH, _⟩ := hadv
-  obtain ⟨h2, eff, _, _⟩ := h1.advance hle hH q2 (Nat.le_refl _)
-  obtain ⟨st1, st2⟩ := static_runs h hs.head c
-  have htime : ((Sys.runs s e1).agent c).selStart + Config.maxWait ((Sys.runs s e1).agent c).cfg ≤ t := by
-    rw [st1, st2]; exact q3
-  obtain ⟨tid, la, ra, hch, _, _⟩ := sys_tick_nominate h1.ok hH eff q2 hsel hsucc1 htime
-  have hf2 : FairL L ((Sys.runs s e1).advance t).1 e2 := hf.after_adv
-  rw [hrun] at hend
-  have hnow2 : ((Sys.runs s e1).advance t).1.now = t := eff.now
-  obtain ⟨f1, f2, r1, r2, r3⟩ := ch1_completes h2 hs2 hf2 hch (by rw [hnow2]; omega) (by rw [hnow2]; omega)
-  subst r1
-  refine ⟨e1 ++ SysEv.advance t :: f1, f2, by simp, ?_, ?_⟩
-  · rw [Sys.runs_append]; exact r2.2 (by simp)
-  · rw [Sys.runs_append]
-    rw [hnow2] at r3
-    show (Sys.runs ((Sys.runs s e1).advance t).1 f1).now ≤ _
-    omega
+  have hN : nomTime c (Sys.runs s e1) = nomTime c s := by
+    obtain ⟨st1, st2⟩ := static_runs h hs.head c
+    unfold nomTime; rw [st1, st2]
+  rcases q2.nom hsucc1 (by rw [hN]; exact q3) with g | ⟨tid, la, ra, hch⟩
+  · exact ⟨e1 ++ [e], e2, hsplit, by rw [hr2]; exact g, by rw [hr2]; omega⟩
+  · rw [hrun] at hend
+    obtain ⟨f1, f2, r1, r2, r3⟩ := ch1_completes h2 hs2 hf.after_ev hch (by omega) (by omega)
+    subst r1
+    refine ⟨e1 ++ e :: f1, f2, by simp, ?_, ?_⟩
+    · rw [Sys.runs_append]; exact r2.2 (by simp)
+    · rw [Sys.runs_append]
+      show (Sys.runs (Sys.run (Sys.runs s e1) e) f1).now ≤ _
+      omega
 
 /-- the time by which a fair suffix has converged -/
-def fairBound (c : Bool) (L : Nat) (s : Sys) : Nat :=
-  max (s.now + 2000000000 + 2 * L) (nomTime c s) + 2000000000 + 4 * L
+def fairBound (c : Bool) (L J : Nat) (s : Sys) : Nat :=
+  max (s.now + 2000000000 + J + 2 * L) (nomTime c s) + 2000000000 + 2 * J + 4 * L
 
 /-- **convergence on every fair suffix.** -/
-theorem converge_fair {s : Sys} {es : List SysEv} (h : FInv nat blocked SLA SLB SR liteA liteB T0 H c s)
-    (hs : SufOK c H s es) (hf : FairL L s es) (hL : 2 * L < maxBindingRequestTimeout)
-    (hlink : NomSeen c s → DPY c L s) (hst : Start c s) (hend : fairBound c L s < (Sys.runs s es).now) :
+theorem converge_fair {s : Sys} {es : List SysEv} (h : FInv nat blocked SLA SLB SR liteA liteB T0 H J c s)
+    (hs : SufOK c H J s es) (hf : FairL L s es) (hL : J + 2 * L < maxBindingRequestTimeout)
+    (hlink : NomSeen c s → DPY c L s) (hst : Start c s) (hend : fairBound c L J s < (Sys.runs s es).now) :
     ∀ x, Sel (Sys.runs s es) x ∧ ((Sys.runs s es).agent x).connState = .connected := by
   unfold fairBound at hend
-  have hmL := Nat.le_max_left (s.now + 2000000000 + 2 * L) (nomTime c s)
-  have hmR := Nat.le_max_right (s.now + 2000000000 + 2 * L) (nomTime c s)
+  have hmL := Nat.le_max_left (s.now + 2000000000 + J + 2 * L) (nomTime c s)
+  have hmR := Nat.le_max_right (s.now + 2000000000 + J + 2 * L) (nomTime c s)
   obtain ⟨t0, ht0, l1, l2⟩ := h.tick
   -- the first valid pair
   obtain ⟨e1, e2, q1, q2, q3⟩ := first_valid h hs hf hL hst ht0 (by omega)
@@ -252,17 +229,17 @@ theorem converge_fair {s : Sys} {es : List SysEv} (h : FInv nat blocked SLA SLB 
   have hN : nomTime c (Sys.runs s e1) = nomTime c s := by
     obtain ⟨st1, st2⟩ := static_runs h hs.head c
     unfold nomTime; rw [st1, st2]
-  have hmax : max (Sys.runs s e1).now (nomTime c (Sys.runs s e1)) ≤ max (s.now + 2000000000 + 2 * L) (nomTime c s) := by
+  have hmax : max (Sys.runs s e1).now (nomTime c (Sys.runs s e1)) ≤ max (s.now + 2000000000 + J + 2 * L) (nomTime c s) := by
     rw [hN]
     exact Nat.max_le.mpr ⟨by omega, hmR⟩
   obtain ⟨f1, f2, r1, r2, r3⟩ := ctl_selected h1 hs.tail hf.tail hL q2 (by omega)
   subst r1
   have hselC : Sel (Sys.runs s (e1 ++ f1)) c := by rw [Sys.runs_append]; exact r2
-  have hnowC : (Sys.runs s (e1 ++ f1)).now ≤ max (s.now + 2000000000 + 2 * L) (nomTime c s) + 2000000000 + 2 * L := by
+  have hnowC : (Sys.runs s (e1 ++ f1)).now ≤ max (s.now + 2000000000 + J + 2 * L) (nomTime c s) + 2000000000 + 2 * J + 2 * L := by
     rw [Sys.runs_append]; omega
-  have hsAll : SufOK c H s ((e1 ++ f1) ++ f2) := by rw [List.append_assoc]; exact hs
+  have hsAll : SufOK c H J s ((e1 ++ f1) ++ f2) := by rw [List.append_assoc]; exact hs
   have hfAll : FairL L s ((e1 ++ f1) ++ f2) := by rw [List.append_assoc]; exact hf
-  have hendAll : max (s.now + 2000000000 + 2 * L) (nomTime c s) + 2000000000 + 4 * L < (Sys.runs s ((e1 ++ f1) ++ f2)).now := by
+  have hendAll : max (s.now + 2000000000 + J + 2 * L) (nomTime c s) + 2000000000 + 2 * J + 4 * L < (Sys.runs s ((e1 ++ f1) ++ f2)).now := by
     rw [List.append_assoc]; exact hend
   -- the controlled agent follows
   have hselD : Sel (Sys.runs s ((e1 ++ f1) ++ f2)) (!c) := by
@@ -271,16 +248,16 @@ theorem converge_fair {s : Sys} {es : List SysEv} (h : FInv nat blocked SLA SLB 
       rw [p1] at hsAll ⊢
       exact sel_to_end h hsAll p2
     · obtain ⟨g1, g2, p1, p2⟩ := first_seen h hsAll.head hseen (Or.inl hselC)
-      have hsP : SufOK c H s (g1 ++ (g2 ++ f2)) := by rw [← List.append_assoc, ← p1]; exact hsAll
+      have hsP : SufOK c H J s (g1 ++ (g2 ++ f2)) := by rw [← List.append_assoc, ← p1]; exact hsAll
       have hfP : FairL L s (g1 ++ (g2 ++ f2)) := by rw [← List.append_assoc, ← p1]; exact hfAll
       have hg1 := h.runs hsP.head
       have hnow1 : (Sys.runs s g1).now ≤ (Sys.runs s (e1 ++ f1)).now := by
         rw [p1, Sys.runs_append]
-        have : SufOK c H s (g1 ++ g2) := by rw [← p1]; exact hsAll.head
+        have : SufOK c H J s (g1 ++ g2) := by rw [← p1]; exact hsAll.head
         exact now_le_runs hg1 this.tail
       have hendP : (Sys.runs s g1).now + 2 * L < (Sys.runs (Sys.runs s g1) (g2 ++ f2)).now := by
         rw [← Sys.runs_append, ← List.append_assoc, ← p1]; omega
-      obtain ⟨k1, k2, p3, p4, _⟩ := dpy_completes hg1 hsP.tail hfP.tail (p2.dpy hL) hendP
+      obtain ⟨k1, k2, p3, p4, _⟩ := dpy_completes hg1 hsP.tail hfP.tail (p2.dpy (by omega)) hendP
       have e : (e1 ++ f1) ++ f2 = (g1 ++ k1) ++ k2 := by rw [p1, List.append_assoc, p3, List.append_assoc]
       rw [e] at hsAll ⊢
       exact sel_to_end h hsAll (by rw [Sys.runs_append]; exact p4)
